@@ -183,7 +183,7 @@ def apply_shadow(doc, op):
             pop(b.steps(op[1]), doc, default=None)
         elif k == "pop_match":
             pop(b.steps(op[1]), doc, default=None)
-        elif k == "get_sd":
+        elif k in ("get_sd", "get_sdc"):
             get(b.steps(op[1]), doc, default=val(op[2]), store_default=True)
     except Exception:
         pass
@@ -262,7 +262,8 @@ def gen_mutate(rng, profile):
             elif r < 0.7:
                 op = [rng.choice(["set", "set_match"]), cascade_path(rng, shadow), gen_valspec(rng, shadow), True]
             elif r < 0.9:
-                op = ["get_sd", cascade_path(rng, shadow), gen_valspec(rng, shadow)]
+                op = [rng.choice(["get_sd", "get_sd", "get_sdc"]), cascade_path(rng, shadow),
+                      rng.choice([gen_valspec(rng, shadow), ["new", enc(rng.choice([[], {}, 0, None, "", False]))]])]
             else:
                 steps, _ = target_path(rng, shadow, fancy=0.0)
                 op = ["set", steps, gen_valspec(rng, shadow), True]
@@ -323,13 +324,13 @@ def gen_mutate(rng, profile):
                     op = [k, hid, ["none"] if rng.random() < 0.5 else ["val", gen_valspec(rng, shadow)]]
                 else:
                     op = [k, hid]
-        if prev_paths and len(op) > 1 and isinstance(op[1], list) and op[0] in ("set", "set_match", "pop", "get_sd") and rng.random() < 0.25:
+        if prev_paths and len(op) > 1 and isinstance(op[1], list) and op[0] in ("set", "set_match", "pop", "get_sd", "get_sdc") and rng.random() < 0.25:
             op[1] = rng.choice(prev_paths)      # the same expression object is reused by the observer
         trial = copy.deepcopy(shadow)
         apply_shadow(trial, op)
         if is_cyclic(trial):
             continue            # an alias stored inside itself: cyclic documents are C20's business
-        if op[0] in ("set", "set_match", "pop", "get_sd", "pop_match"):
+        if op[0] in ("set", "set_match", "pop", "get_sd", "get_sdc", "pop_match"):
             prev_paths.append(op[1])
         sc["ops"].append(op)
         apply_shadow(shadow, op)
@@ -430,6 +431,9 @@ def gen_list_op(rng, doc, live, its):
         return ["l.new", lid, chain, rng.choice(["id", "id", "neg", "box", "boom"])]
     lid = rng.choice(sorted(live)) if rng.random() < 0.95 else rng.randint(0, 2)
     idx = rng.choice([-5, -3, -2, -1, 0, 0, 1, 1, 2, 3, 5])
+    if rng.random() < 0.06:
+        chain, _ = _decl_chain(rng, doc)
+        return ["l.assign", [c for c in chain if len(c) <= 2 or c[2] != "gm"] or chain, lid]
     k = rng.choice(["l.len", "l.get", "l.get", "l.set", "l.set", "l.del", "l.in", "l.append", "l.append", "l.pop",
                     "l.pop", "l.iter", "l.keep", "l.keep", "l.remove", "l.it.new", "l.it.next", "l.it.next"])
     if k in ("l.len", "l.iter"):
